@@ -37,7 +37,7 @@ if [ "$what" = all ] || [ "$what" = model ] || [ "$what" = coq ]; then
     for m in $mods; do
       [ "coq/theories/$m.v" -nt ocaml/model ] && stale=1
     done
-    for f in coq/extract/Extract.v ocaml/driver.ml ocaml/core_cmds.ml ocaml/build.sh; do
+    for f in coq/extract/Extract.v ocaml/*.ml ocaml/build.sh; do
       [ "$f" -nt ocaml/model ] && stale=1
     done
   fi
